@@ -848,6 +848,10 @@ func (r *envelopingReader) Read(data []byte) (n int, err error) {
 	}
 	if len(data) > offset {
 		n, err = r.current.Read(data[offset:])
+		if errors.Is(err, io.EOF) && offset+n > 0 {
+			// Only the end of this message; the next call finds out if the stream is over.
+			err = nil
+		}
 	}
 	return offset + n, err
 }
@@ -967,12 +971,12 @@ func (r *transformingReader) Read(data []byte) (n int, err error) {
 			offset = r.envRemain
 			r.envRemain = 0
 		}
-		var err error
 		if len(data) > offset && r.buffer != nil {
-			n, err = r.buffer.Read(data[offset:])
+			// A drained buffer reports io.EOF, which only means the end of this message.
+			n, _ = r.buffer.Read(data[offset:])
 		}
 		if offset+n > 0 {
-			return offset + n, err
+			return offset + n, nil
 		}
 
 		// If we get here, there was nothing in tr.buffer to read, so
